@@ -154,7 +154,7 @@ func loadContractsInto(c *Contracts, path string) (*Contracts, error) {
 		}
 		switch first {
 		case "func", "callback":
-			m := reFuncHdr.FindStringSubmatch(first + " " + rest)
+			m := reFuncHdr.FindStringSubmatch("func " + rest)
 			if m == nil {
 				return nil, fail("bad func header")
 			}
